@@ -23,6 +23,7 @@ import (
 	"github.com/notaryproject/notation-go/verifharness/lib"
 	"github.com/notaryproject/notation-go/verifier"
 	"github.com/notaryproject/notation-go/verifier/trustpolicy"
+	"github.com/opencontainers/go-digest"
 	ocispec "github.com/opencontainers/image-spec/specs-go/v1"
 )
 
@@ -451,6 +452,63 @@ func main() {
 			case !pass && wantAny:
 				r.Event("completeness:contained-but-rejected")
 				r.Sample("contained but rejected", wit)
+			}
+		}
+		// ---- one verifier holding an OCI and a blob statement with the SAME name but different identities: what one
+		// interface evaluated must not leak into the other (identities belong to the applicable statement of THAT call)
+		if i%4 == 0 && len(c.Identities) > 0 && allValid && !overlap(c.Identities) {
+			var idStrs []string
+			for _, id := range c.Identities {
+				idStrs = append(idStrs, render(id, rng, 0))
+			}
+			foreign := []string{"x509.subject:C=ZZ,ST=ZZ,O=Nobody"}
+			sv := L.SV(i)
+			od := lib.OCIPolicy(sv, []string{"ca:x"}, idStrs)
+			bd := lib.BlobPolicy(sv, []string{"ca:x"}, foreign)
+			ociFirst := i%8 == 0
+			if !ociFirst {
+				od, bd = lib.OCIPolicy(sv, []string{"ca:x"}, foreign), lib.BlobPolicy(sv, []string{"ca:x"}, idStrs)
+			}
+			if v, err := verifier.NewVerifierWithOptions(ts, verifier.VerifierOptions{OCITrustPolicy: od, BlobTrustPolicy: bd, RevocationCodeSigningValidator: lib.OKRev{}, RevocationTimestampingValidator: lib.OKRev{}}); err == nil {
+				blob := []byte("c04 blob")
+				bdesc := lib.Desc("application/octet-stream", blob)
+				bsig := lib.MustCoreSign(lib.SignSpec{Format: format, Payload: lib.Payload(bdesc), Signer: leaf})
+				authOf := func(out *notation.VerificationOutcome) (pass, ok bool) {
+					if out == nil {
+						return false, false
+					}
+					for _, res := range out.VerificationResults {
+						if res.Type == trustpolicy.TypeAuthenticity {
+							return res.Error == nil, true
+						}
+					}
+					return false, false
+				}
+				verifyOCI := func() (bool, bool) {
+					out, _ := v.Verify(context.Background(), desc, sig, notation.VerifierVerifyOptions{ArtifactReference: "r.io/a@" + desc.Digest.String(), SignatureMediaType: format})
+					return authOf(out)
+				}
+				verifyBlob := func() (bool, bool) {
+					out, _ := v.VerifyBlob(context.Background(), func(alg digest.Algorithm) (ocispec.Descriptor, error) { return bdesc, nil }, bsig, notation.BlobVerifierVerifyOptions{SignatureMediaType: format})
+					return authOf(out)
+				}
+				// first the interface that carries the case's identities, then the one pinned to a foreign identity
+				var firstPass, secondPass, ok1, ok2 bool
+				if ociFirst {
+					firstPass, ok1 = verifyOCI()
+					secondPass, ok2 = verifyBlob()
+				} else {
+					firstPass, ok1 = verifyBlob()
+					secondPass, ok2 = verifyOCI()
+				}
+				r.Event("shared-verifier-sequences")
+				wit := map[string]any{"case": c, "leaf_subject": leaf.Cert.Subject.String(), "identities_of_first_statement": idStrs, "identities_of_second_statement": foreign, "oci_first": ociFirst}
+				if ok1 && firstPass && !wantAny {
+					r.Violation(map[string]string{"kind": "pass-without-match", "shape": c.Shape + "/shared-verifier"}, "authenticity passed although no listed identity is contained in the leaf subject (verifier with OCI and blob policy)", wit)
+				}
+				if ok2 && secondPass {
+					r.Violation(map[string]string{"kind": "identity-leaks-between-statements", "shape": c.Shape}, "a statement pinned to a foreign identity passed authenticity after a same-named statement of the other policy kind had been evaluated on the same verifier", wit)
+				}
 			}
 		}
 		key := ""
